@@ -71,6 +71,13 @@ def obligations(tier):
                       timeout=t, functions=F, stubs=STUBS,
                       bounds='2 DescriptionModificationReports (1 part each) with unconstrained MdibVersions, DescriptorVersion, '
                              'StateVersion', claim='lookups stay consistent, no dangling state, stale report changes nothing'))
+    obs.append(Ob('C06.faulty.waveform.waveform', 'harness.C06', 'faulty_waveforms', timeout=t,
+                  functions=[*F, 'sdc11073.mdib.consumermdib.ConsumerMdib.process_incoming_waveform_states',
+                             'sdc11073.mdib.consumermdib.ConsumerRtBuffer.add_rt_sample_containers'], stubs=STUBS,
+                  bounds='2 WaveformStream notifications for one sample array with unconstrained MdibVersion / StateVersion (any order, '
+                         'duplicates, stale); 2 samples each; functional provider',
+                  claim='stale / duplicated waveform notifications change neither the state, nor the waveform buffer the application '
+                        'reads, nor are they announced as updates; applied ones are buffered exactly once'))
     return obs
 
 
